@@ -312,7 +312,8 @@ def script_leftovers(ctx: Ctx, dd: Dest, expected: T.Mapping[str, dict]) -> T.Tu
 
 
 def check_installed(ctx: Ctx, dd: Dest, o: Obs, expected: T.Mapping[str, dict], optional: T.Set[str], fresh: bool,
-                    stripped: bool = False, excluded_hints: T.Optional[T.Mapping[str, str]] = None) -> None:
+                    stripped: bool = False, excluded_hints: T.Optional[T.Mapping[str, str]] = None,
+                    tags: T.Optional[T.Sequence[str]] = None) -> None:
     umask = ctx.spec['options']['install_umask']
     root_mode = None
     if expected and fresh and not dd.precreated and umask != 'preserve':
@@ -321,6 +322,11 @@ def check_installed(ctx: Ctx, dd: Dest, o: Obs, expected: T.Mapping[str, dict], 
     for m, w in v:
         if m == 'tree:unexpected' and excluded_hints and w['path'] in excluded_hints:
             w['hint'] = excluded_hints[w['path']]
+        if (m.startswith('tree:missing:') and tags is not None and isinstance(w.get('expected'), dict) and w['expected'].get('tag') in tags
+                and refine(m, w, ctx.spec) == m):   # a narrower classifier (rule-specific cause) wins
+            # the object carries one of the requested tags (explicit or documented default) and was left out
+            m = 'tags:selected-but-missing:' + m.split(':', 2)[2]
+            w['requested_tags'] = list(tags)
         ctx.add(m, w)
     ctx.count('monitor:tree-paths', c['paths'])
     ctx.count('monitor:tree-modes', c['modes'])
@@ -403,7 +409,7 @@ def h_reverse(ctx: Ctx, rng: random.Random, form: str, extra: T.Sequence[str], t
         o = run_meson(ctx, dd, install_argv(ctx, dd, extra), 'install')
         if not o.ok:
             return
-        check_installed(ctx, dd, o, expected, optional, fresh=True, excluded_hints=hints_for(ctx.spec, tags, skip))
+        check_installed(ctx, dd, o, expected, optional, fresh=True, excluded_hints=hints_for(ctx.spec, tags, skip), tags=tags)
         if tags is not None:
             ctx.count('monitor:tags-selections')
             ctx.count('monitor:tags-excluded-entries', sum(1 for e in ctx.spec['entries'] if e['tag'] != '?' and e['tag'] not in tags))
